@@ -31,6 +31,8 @@ def run(F, rep, tier):
     start_last(F, rep)
     containers(F, rep)
     init_order_keys(F, rep)
+    import c05
+    c05.start_rules(F, rep)
 
 
 def dependency_visit(F, rep):
@@ -52,12 +54,12 @@ def dependency_visit(F, rep):
         ("Blob", "var"): "the declared type's own variable (key of the ordering map)",
         ("Enum", "var"): "the declared type's own variable (key of the ordering map)",
         ("ExternalDefinition", "var"): "the declared variable itself",
-        # NOTE: Blob.fields / Enum.variants are NOT exempt: the partition in compile() puts type declarations before values,
+        # NOTE: no annotation position is exempt.  Function.params / Function.ret / ExternalDefinition.ty used to be, on the
+        # argument that annotations name Blob/Enum declarations and those are placed first; but an annotation can name any
+        # global (`X :: 1`, `f :: fn a: X -> int`), and then only the order decided whether the misuse was reported.
+        # Blob.fields / Enum.variants are NOT exempt either: the partition in compile() puts type declarations before values,
         # but among themselves type declarations are only ordered by these edges, and a type that is resolved before the
         # declaration it names has been checked silently means "anything" (inner_resolve_type copies an Unknown node).
-        ("ExternalDefinition", "ty"): "declared type of an external: produces no initialiser code; types are placed first",
-        ("Function", "params"): "parameters are binders; their annotation types refer to Blob/Enum which are placed first",
-        ("Function", "ret"): "type-only child; types are placed first by the partition in compile()",
         ("Blob", "self_var"): "binder (`self`)",
         ("CaseBranch", "variable"): "binder (case binding)",
     }
